@@ -31,6 +31,18 @@ impl Default for GenCfg {
     }
 }
 
+/// The characters lexicon surfaces are made of (csv_core drops a U+FEFF that opens a file: no surface contains it).
+/// (A plain loop: an iterator chain here drew a stack-use-after-scope report from AddressSanitizer in safe code.)
+fn surface_pool(clean_space: bool) -> Vec<char> {
+    let mut v = Vec::with_capacity(ALPHA.len());
+    for &c in ALPHA {
+        if c != '\u{FEFF}' && !(clean_space && is_space(c)) {
+            v.push(c);
+        }
+    }
+    v
+}
+
 fn is_space(c: char) -> bool {
     c == ' ' || c == '\u{3000}'
 }
@@ -340,7 +352,7 @@ pub fn gen_dict(rng: &mut Rng, cfg: &GenCfg) -> DictSpec {
     if rng.chance(0.3) {
         rng.shuffle(&mut unk);
     }
-    let pool: Vec<char> = ALPHA.iter().cloned().filter(|&c| c != '\u{FEFF}' && !(cfg.clean_space && is_space(c))).collect(); // (csv_core drops a U+FEFF that opens a file: no surface contains it)
+    let pool: Vec<char> = surface_pool(cfg.clean_space);
     let nlex = 1 + rng.below(cfg.max_lex);
     let lex = gen_rows(rng, nlex, nl, nr, "L", &pool, cfg.tie_heavy, &[]);
     DictSpec { cats, def_order, ranges, unk, lex, conn }
@@ -348,7 +360,7 @@ pub fn gen_dict(rng: &mut Rng, cfg: &GenCfg) -> DictSpec {
 
 pub fn gen_user(rng: &mut Rng, spec: &DictSpec, cfg: &GenCfg) -> Vec<LexRow> {
     let (nr, nl) = spec.conn.dims();
-    let pool: Vec<char> = ALPHA.iter().cloned().filter(|&c| c != '\u{FEFF}' && !(cfg.clean_space && is_space(c))).collect(); // (csv_core drops a U+FEFF that opens a file: no surface contains it)
+    let pool: Vec<char> = surface_pool(cfg.clean_space);
     let n = 1 + rng.below(5);
     gen_rows(rng, n, nl, nr, "V", &pool, cfg.tie_heavy, &spec.lex)
 }
